@@ -9,7 +9,7 @@ from gambit.sigs import SignatureArray
 from .. import core
 from ..enc import f32_fields, ranks
 
-DT3 = [('u2', 'u2', 'u2'), ('u2', 'u4', 'u8'), ('i8', 'u4', 'i2'), ('u8', 'u8', 'u8'), ('i4', 'i4', 'u2'), ('u4', 'i2', 'i8')]
+DT3 = [('u2', 'u2', 'u2'), ('u2', 'u4', 'u8'), ('i8', 'u4', 'i2'), ('u8', 'u8', 'i8'), ('i8', 'i8', 'u8'), ('u8', 'u8', 'u8'), ('i4', 'i4', 'u2'), ('u4', 'i2', 'i8')]
 WIDER = {'u2': 'u4', 'i2': 'i4', 'u4': 'u8', 'i4': 'i8', 'u8': 'u8', 'i8': 'i8'}
 
 
@@ -71,9 +71,9 @@ class AllTriples(Fam):
 
     def inputs(self, ctx):
         U = 4 if ctx.tier == 'quick' else 5
-        ndt = 3 if ctx.tier == 'quick' else 6
+        ndt = 4 if ctx.tier == 'quick' else len(DT3)
         self.rule = (f'every ordered triple of subsets of a {U}-element universe x {ndt} dtype assignments (universe placed at '
-                     f'the top of the narrowest range, plus a wider-typed first set holding values congruent mod 2^16 / 2^32 to the others); six distances, two widened-dtype variants, the one-against-many path and the augmented pair per record')
+                     f'the top of the narrowest range, plus a wider-typed first set holding values congruent mod 2^16 / 2^32 to the others); six distances, two widened-dtype variants, the one-against-many path (reference collection built from a list of arrays of equal width, unsigned and signed mixed, values up to 2^63-1) and the augmented pair per record')
         subsets = [[i for i in range(U) if (m >> i) & 1] for m in range(1 << U)]
         for dts in DT3[:ndt]:
             top = min(int(np.iinfo(np.dtype(d)).max) for d in dts)
